@@ -18,6 +18,7 @@
 import DDProofs.AutoLedger
 import DDProofs.GcSpec
 import DDProofs.DynProofs
+import DDProofs.SwapDrivers
 open Std
 
 namespace DD
@@ -51,17 +52,51 @@ theorem RefExact.lookup {m : Mgr} {ext : Nat → Nat} (h : RefExact m ext) (k : 
 `_init_terminal` gives to node 1 is accounted for by `RefExact` itself) -/
 def hext (a : AMgr) : Nat → Nat := fun k => hcount a.handles k
 
-/-- `off = true` : dynamic reordering is not enabled -/
-def ModeOK (off : Bool) (m : Mgr) : Prop := off = true → m.lastLen = none
+/-- `off = true` : dynamic reordering is not enabled;  `off = false` : it may be enabled, and there
+are at least two variables (with one variable sifting raises `ValueError`, C07
+`sift_single_variable_raises`, so an operation that triggers reordering would fail) -/
+def ModeOK (off : Bool) (m : Mgr) : Prop :=
+  (off = true → m.lastLen = none) ∧ (off = false → 2 ≤ m.nvars)
+
+/-- a step that keeps the switch and does not lose variables keeps the mode -/
+theorem ModeOK.transfer {off : Bool} {m m' : Mgr} (h : ModeOK off m) (hl : m'.lastLen = m.lastLen)
+    (hn : m.nvars ≤ m'.nvars) : ModeOK off m' :=
+  ⟨fun ho => by rw [hl]; exact h.1 ho, fun ho => Nat.le_trans (h.2 ho) hn⟩
+
+/-- the part of the invariant that speaks about the wrapped manager alone, relative to a
+ledger `ext` of references held from outside: the manager invariant, the name maps (C14), exact
+counts (C06), between two calls (`ctx = false`), no recorded iteration schedule, no registered
+roots (`autoref` never sets `bdd.roots`), and the mode -/
+structure MInv (off : Bool) (ext : Nat → Nat) (m : Mgr) : Prop where
+  inv : Inv m
+  order : OrderOK m.tbl
+  counts : RefExact m ext
+  ctx : m.ctx = false
+  sched : m.sched = []
+  roots : m.roots = []
+  mode : ModeOK off m
+
+/-- a change of `_ref` alone -/
+theorem MInv.setRef {ext ext' : Nat → Nat} {m : Mgr} (h : MInv off ext m) (ref' : TreeMap Nat Nat)
+    (hi : Inv { m with ref := ref' }) (hr : RefExact { m with ref := ref' } ext') :
+    MInv off ext' { m with ref := ref' } :=
+  ⟨hi, h.order, hr, h.ctx, h.sched, h.roots, h.mode⟩
+
+theorem MInv.extCongr {ext ext' : Nat → Nat} {m : Mgr} (h : MInv off ext m)
+    (he : ∀ k, ext k = ext' k) : MInv off ext' m :=
+  ⟨h.inv, h.order, h.counts.extCongr he, h.ctx, h.sched, h.roots, h.mode⟩
+
+theorem MInv.reorderInv {ext : Nat → Nat} {m : Mgr} (h : MInv off ext m) : ReorderInv ext m :=
+  ⟨h.inv, h.order, h.counts, Or.inl h.ctx, fun r hr => by rw [h.roots] at hr; cases hr⟩
 
 structure AInv (off : Bool) (a : AMgr) : Prop where
-  inv : Inv a.m
+  minv : MInv off (hext a) a.m
   hmem : ∀ (h : Nat) (u : Int), a.handles[h]? = some u → a.m.tbl.Mem u
-  counts : RefExact a.m (hext a)
-  mode : ModeOK off a.m
 
-theorem AInv.weaken {a : AMgr} (h : AInv off a) : AInv false a :=
-  ⟨h.inv, h.hmem, h.counts, fun h => nomatch h⟩
+theorem AInv.inv {a : AMgr} (h : AInv off a) : Inv a.m := h.minv.inv
+theorem AInv.order {a : AMgr} (h : AInv off a) : OrderOK a.m.tbl := h.minv.order
+theorem AInv.counts {a : AMgr} (h : AInv off a) : RefExact a.m (hext a) := h.minv.counts
+theorem AInv.mode {a : AMgr} (h : AInv off a) : ModeOK off a.m := h.minv.mode
 
 theorem hext_pos_of_handle (a : AMgr) (h : Nat) (u : Int) (hh : a.handles[h]? = some u) :
     0 < hext a u.natAbs := hcount_pos_of_handle a.handles h u hh
@@ -76,10 +111,11 @@ theorem wrapF_spec (a : AMgr) (h : Nat) (u : Int) (hi : AInv off a)
     have := (incref_kept a.m hi.inv u).inv
     rw [he] at this; exact this
   refine ⟨{ a with m := { a.m with ref := a.m.ref.insert u.natAbs (c + 1) },
-                   handles := a.handles.insert h u }, ?_, ⟨hinv, ?_, ?_, hi.mode⟩, rfl, rfl, rfl⟩
+                   handles := a.handles.insert h u }, ?_, ⟨hi.minv.setRef _ hinv ?_, ?_⟩, rfl, rfl, rfl⟩
   · unfold wrapF
     rw [(Mgr.mem_iff a.m u).mpr hu, he]
     rfl
+  rotate_left
   · intro j v hj
     show a.m.tbl.Mem v
     by_cases hjh : j = h
@@ -120,10 +156,11 @@ theorem drop_spec (a : AMgr) (h : Nat) (u : Int) (hi : AInv off a) (hh : a.handl
     have := (decref_kept a.m hi.inv u).inv
     rw [he] at this; exact this
   refine ⟨{ a with m := { a.m with ref := a.m.ref.insert u.natAbs c }, handles := a.handles.erase h },
-    ?_, ⟨hinv, ?_, ?_, hi.mode⟩, rfl, rfl, rfl⟩
+    ?_, ⟨hi.minv.setRef _ hinv ?_, ?_⟩, rfl, rfl, rfl⟩
   · unfold drop
     rw [hh]
     simp only [he]
+  rotate_left
   · intro j v hj
     show a.m.tbl.Mem v
     by_cases hjh : j = h
@@ -184,8 +221,8 @@ outcome (a result or an exception): the manager invariant and the count equation
 to the *same* external references are kept, externally referenced nodes survive with their
 meaning, and (mode `off = true`) reordering stays disabled -/
 def CoreKeepsAt (off : Bool) (m : Mgr) (op : M α) : Prop :=
-  ∀ (ext : Nat → Nat), ModeOK off m → Inv m → RefExact m ext → ∀ r m', op m = (r, m') →
-    Inv m' ∧ RefExact m' ext ∧ HeldExt m.tbl m'.tbl ext ∧ ModeOK off m'
+  ∀ (ext : Nat → Nat), MInv off ext m → ∀ r m', op m = (r, m') →
+    MInv off ext m' ∧ HeldExt m.tbl m'.tbl ext
 
 /-- … in every start state -/
 structure CoreKeeps (off : Bool) (op : M α) : Prop where
@@ -197,10 +234,10 @@ theorem CoreKeeps.at {op : M α} (h : CoreKeeps off op) (m : Mgr) : CoreKeepsAt 
 def MRead (x : M α) : Prop := ∀ m, (x m).2 = m
 
 theorem CoreKeeps.of_read {x : M α} (h : MRead x) : CoreKeeps off x := by
-  refine ⟨fun m ext hm hi hc r m' he => ?_⟩
+  refine ⟨fun m ext hm r m' he => ?_⟩
   have : m' = m := by have := h m; rw [he] at this; exact this
   subst this
-  exact ⟨hi, hc, HeldExt.refl _ _, hm⟩
+  exact ⟨hm, HeldExt.refl _ _⟩
 
 /-! ### operations of the autoref layer -/
 
@@ -227,6 +264,22 @@ def AKeepsL (off : Bool) (H : List Nat) (x : AM α) : Prop :=
     AInv off a' ∧ (∀ j : Nat, j ∉ H → a'.handles[j]? = a.handles[j]?) ∧
     (∀ (j : Nat) (u : Int), a.handles[j]? = some u →
       a'.m.tbl.Mem u ∧ ∀ asg, denN a'.m.tbl u asg = denN a.m.tbl u asg)
+
+/-- … for one start state -/
+def AKeepsLAt (off : Bool) (a : AMgr) (H : List Nat) (x : AM α) : Prop :=
+  AInv off a → (∀ h, h ∈ H → a.handles.contains h = false) → ∀ r a', x a = (r, a') →
+    AInv off a' ∧ (∀ j : Nat, j ∉ H → a'.handles[j]? = a.handles[j]?) ∧
+    (∀ (j : Nat) (u : Int), a.handles[j]? = some u →
+      a'.m.tbl.Mem u ∧ ∀ asg, denN a'.m.tbl u asg = denN a.m.tbl u asg)
+
+theorem AKeepsL.at {x : AM α} {H : List Nat} (hk : AKeepsL off H x) (a : AMgr) : AKeepsLAt off a H x :=
+  hk a
+
+theorem AKeepsAt.toL {x : AM α} {h : Nat} {a : AMgr} (hk : AKeepsAt off a h x) :
+    AKeepsLAt off a [h] x := by
+  intro hi hf r a' he
+  obtain ⟨i, s, d⟩ := hk hi (hf h List.mem_cons_self) r a' he
+  exact ⟨i, fun j hj => s j (fun e => hj (e ▸ List.mem_cons_self)), d⟩
 
 theorem AKeeps.toL {x : AM α} {h : Nat} (hk : AKeeps off h x) : AKeepsL off [h] x := by
   intro a hi hf r a' he
@@ -263,28 +316,32 @@ theorem AKeeps.bind_read {x : AM α} {f : α → AM β} {h : Nat} (hx : ARead x)
       exact hf v a1 hi hfr r a' he
 
 /-- the state after a core operation that satisfies `CoreKeeps` -/
-theorem AInv.after_core {a : AMgr} (hi : AInv off a) {m' : Mgr} (h1 : Inv m')
-    (h2 : RefExact m' (hext a)) (h3 : HeldExt a.m.tbl m'.tbl (hext a)) (h4 : ModeOK off m') :
+theorem AInv.after_core {a : AMgr} (hi : AInv off a) {m' : Mgr} (h1 : MInv off (hext a) m')
+    (h3 : HeldExt a.m.tbl m'.tbl (hext a)) :
     AInv off { a with m := m' } ∧
     (∀ (j : Nat) (u : Int), a.handles[j]? = some u →
       m'.tbl.Mem u ∧ ∀ asg, denN m'.tbl u asg = denN a.m.tbl u asg) := by
   have hd : ∀ (j : Nat) (u : Int), a.handles[j]? = some u →
       m'.tbl.Mem u ∧ ∀ asg, denN m'.tbl u asg = denN a.m.tbl u asg :=
     fun j u hj => h3 u (hi.hmem j u hj) (hext_pos_of_handle a j u hj)
-  exact ⟨⟨h1, fun j u hj => (hd j u hj).1, h2, h4⟩, hd⟩
+  exact ⟨⟨h1, fun j u hj => (hd j u hj).1⟩, hd⟩
 
 /-- a core operation without a node result (`collect_garbage`, `reorder`, `configure`, …) -/
-theorem liftM_keeps {op : M α} (hs : CoreKeeps off op) (h : Nat) : AKeeps off h (AM.liftM op) := by
-  intro a hi _ r a' he
+theorem liftM_keepsAt {op : M α} (a : AMgr) (hs : CoreKeepsAt off a.m op) (h : Nat) :
+    AKeepsAt off a h (AM.liftM op) := by
+  intro hi _ r a' he
   unfold AM.liftM at he
   cases hop : op a.m with
   | mk r0 m' =>
     rw [hop] at he
     simp only at he
     cases he
-    obtain ⟨h1, h2, h3, h4⟩ := hs.keeps a.m (hext a) hi.mode hi.inv hi.counts r m' hop
-    obtain ⟨i', hd⟩ := hi.after_core h1 h2 h3 h4
+    obtain ⟨h1, h3⟩ := hs (hext a) hi.minv r m' hop
+    obtain ⟨i', hd⟩ := hi.after_core h1 h3
     exact ⟨i', fun _ _ => rfl, hd⟩
+
+theorem liftM_keeps {op : M α} (hs : CoreKeeps off op) (h : Nat) : AKeeps off h (AM.liftM op) :=
+  fun a => liftM_keepsAt a (hs.at a.m) h
 
 /-- `_wrap` / `Function(…)` of an arbitrary integer with a fresh id: either the node is stored
 and the handle is created, or `ValueError` and nothing changes -/
@@ -328,8 +385,8 @@ theorem wrapResult_keepsAt {core : M Int} (a : AMgr) (hs : CoreKeepsAt off a.m c
   cases hop : core a.m with
   | mk r0 m' =>
     rw [hop] at he
-    obtain ⟨h1, h2, h3, h4⟩ := hs (hext a) hi.mode hi.inv hi.counts r0 m' hop
-    obtain ⟨i1, hd⟩ := hi.after_core h1 h2 h3 h4
+    obtain ⟨h1, h3⟩ := hs (hext a) hi.minv r0 m' hop
+    obtain ⟨i1, hd⟩ := hi.after_core h1 h3
     cases r0 with
     | error e =>
       simp only at he
@@ -350,16 +407,16 @@ theorem wrapResult_keeps {core : M Int} (hs : CoreKeeps off core) (h : Nat) :
     AKeeps off h (wrapResult h core) := fun a => wrapResult_keepsAt a (hs.at a.m) h
 
 /-- `Function(r, bdd)` after a core operation (`Function._apply`) -/
-theorem liftM_wrapF_keeps {core : M Int} (hs : CoreKeeps off core) (h : Nat) :
-    AKeeps off h (do let r ← AM.liftM core; wrapF h r; return r) := by
-  intro a hi hfr r a' he
+theorem liftM_wrapF_keepsAt {core : M Int} (a : AMgr) (hs : CoreKeepsAt off a.m core) (h : Nat) :
+    AKeepsAt off a h (do let r ← AM.liftM core; wrapF h r; return r) := by
+  intro hi hfr r a' he
   change AM.bind' (AM.liftM core) (fun r => AM.bind' (wrapF h r) (fun _ => AM.pure' r)) a = _ at he
   unfold AM.bind' AM.liftM at he
   cases hop : core a.m with
   | mk r0 m' =>
     rw [hop] at he
-    obtain ⟨h1, h2, h3, h4⟩ := hs.keeps a.m (hext a) hi.mode hi.inv hi.counts r0 m' hop
-    obtain ⟨i1, hd⟩ := hi.after_core h1 h2 h3 h4
+    obtain ⟨h1, h3⟩ := hs (hext a) hi.minv r0 m' hop
+    obtain ⟨i1, hd⟩ := hi.after_core h1 h3
     cases r0 with
     | error e =>
       simp only at he
@@ -375,6 +432,10 @@ theorem liftM_wrapF_keeps {core : M Int} (hs : CoreKeeps off core) (h : Nat) :
           cases rw' <;> simp only [AM.pure'] at he <;> cases he <;> rfl
         subst this
         exact ⟨i2, hfr2, fun j u hj => by rw [t2]; exact hd j u hj⟩
+
+theorem liftM_wrapF_keeps {core : M Int} (hs : CoreKeeps off core) (h : Nat) :
+    AKeeps off h (do let r ← AM.liftM core; wrapF h r; return r) :=
+  fun a => liftM_wrapF_keepsAt a (hs.at a.m) h
 
 /-! ### reads -/
 
@@ -453,9 +514,9 @@ theorem levelOfVar_read (v : String) : MRead (levelOfVar v) := by
   simp only
   cases m.tbl.vars[v]? <;> rfl
 
-theorem addInt_read (i : Int) : MRead (addInt i) := by
+theorem addIntA_read (i : Int) : MRead (addIntA i) := by
   intro m
-  unfold addInt
+  unfold addIntA
   change (M.bind' M.get _ m).2 = m
   unfold M.bind' M.get
   simp only
@@ -464,23 +525,6 @@ theorem addInt_read (i : Int) : MRead (addInt i) := by
 theorem pure_readM (v : α) : MRead (pure v : M α) := fun _ => rfl
 
 /-! ### the methods of `autoref.BDD` and `Function` that create one `Function` -/
-
-/-- the frame properties of the core operations that the wrappers call; each is a
-statement about `dd.bdd` alone (no handles), to be discharged by the core proofs -/
-structure CoreSpecs (off : Bool) : Prop where
-  var : ∀ n, CoreKeeps off (var n)
-  apply : ∀ op u v w, CoreKeeps off (apply op u v w)
-  ite : ∀ g u v, CoreKeeps off (ite g u v)
-  letOp : ∀ d u, CoreKeeps off (letOp d u)
-  quantify : ∀ (m : Mgr) u, m.tbl.Mem u → ∀ q f, CoreKeepsAt off m (quantify u q f)
-  cube : ∀ d, CoreKeeps off (cube d)
-  image : ∀ t s rn q f, CoreKeeps off (image t s rn q f)
-  preimage : ∀ t s rn q f, CoreKeeps off (preimage t s rn q f)
-  reorder : ∀ o, CoreKeeps off (reorder o)
-  declare : ∀ ns, CoreKeeps off (declare ns)
-  addVar : ∀ n l, CoreKeeps off (addVar n l)
-  copyBdd : ∀ src u, CoreKeeps off (copyBdd src u)
-  copyVars : ∀ src names, CoreKeeps off (copyVarsCore src names)
 
 theorem aVar_keeps (name : String) (hs : CoreKeeps off (var name)) (h : Nat) :
     AKeeps off h (aVar name h) :=
@@ -507,6 +551,47 @@ theorem aIte_keeps (hs : ∀ g u v, CoreKeeps off (ite g u v)) (hg hu hv : Nat) 
   refine AKeeps.bind_read (nodeIn_read hu) fun u => ?_
   refine AKeeps.bind_read (nodeIn_read hv) fun v => ?_
   exact wrapResult_keeps (hs g u v) h
+
+/-- a read followed by an operation, for one start state: the operation is only needed for the
+values that the read returns in this state -/
+theorem AKeepsAt.bind_read {x : AM α} {f : α → AM β} {h : Nat} (a : AMgr) (hx : ARead x)
+    (hf : ∀ v, (x a).1 = .ok v → AKeepsAt off a h (f v)) : AKeepsAt off a h (x >>= f) := by
+  intro hi hfr r a' he
+  have h2 := hx a
+  change AM.bind' x f a = (r, a') at he
+  unfold AM.bind' at he
+  cases hxa : x a with
+  | mk r0 a1 =>
+    rw [hxa] at he h2
+    simp only at h2
+    subst h2
+    cases r0 with
+    | error e =>
+      simp only at he
+      cases he
+      exact ⟨hi, fun _ _ => rfl, fun j u hj => ⟨hi.hmem j u hj, fun _ => rfl⟩⟩
+    | ok v =>
+      simp only at he
+      exact hf v (by rw [hxa]) hi hfr r a' he
+
+theorem nodeSame_handle (hu : Nat) (a : AMgr) (u : Int) (h : (nodeSame hu a).1 = .ok u) :
+    a.handles[hu]? = some u := by
+  unfold nodeSame at h
+  cases hh : a.handles[hu]? with
+  | some v => rw [hh] at h; simp only at h; cases h; rfl
+  | none =>
+    rw [hh] at h
+    simp only at h
+    cases hf : a.foreign[hu]? with
+    | none => rw [hf] at h; cases h
+    | some w => rw [hf] at h; cases h
+
+theorem nodeOwn_handle (hu : Nat) (a : AMgr) (u : Int) (h : (nodeOwn hu a).1 = .ok u) :
+    a.handles[hu]? = some u := by
+  unfold nodeOwn at h
+  cases hh : a.handles[hu]? with
+  | some v => rw [hh] at h; simp only at h; cases h; rfl
+  | none => rw [hh] at h; simp at h
 
 /-- the operand that passed the `u in self` test is a stored node -/
 theorem nodeIn_ok (hu : Nat) (a a' : AMgr) (u : Int) (h : nodeIn hu a = (.ok u, a')) :
@@ -568,12 +653,13 @@ theorem aQuantify_keeps (q : List Key) (fa : Bool)
       simp only at he
       exact wrapResult_keepsAt a1 (hs a1.m u hmem) h hi hfr r a' he
 
-theorem aCube_keeps (cs : CoreSpecs off) (d : List (String × Bool)) (h : Nat) : AKeeps off h (aCube d h) :=
-  wrapResult_keeps (cs.cube d) h
+theorem aCube_keeps (d : List (String × Bool)) (hs : CoreKeeps off (cube d)) (h : Nat) :
+    AKeeps off h (aCube d h) :=
+  wrapResult_keeps hs h
 
 /-- `_add_int` (no hypothesis): a second `Function` on a stored node -/
 theorem aAddInt_keeps (i : Int) (h : Nat) : AKeeps off h (aAddInt i h) :=
-  wrapResult_keeps (CoreKeeps.of_read (addInt_read i)) h
+  wrapResult_keeps (CoreKeeps.of_read (addIntA_read i)) h
 
 /-- `copy_bdd(u, u.bdd)` (no hypothesis) -/
 theorem aCopyBddSame_keeps (hu : Nat) (h : Nat) : AKeeps off h (aCopyBddSame hu h) := by
@@ -581,14 +667,15 @@ theorem aCopyBddSame_keeps (hu : Nat) (h : Nat) : AKeeps off h (aCopyBddSame hu 
   refine AKeeps.bind_read (nodeOwn_read hu) fun u => ?_
   exact wrapResult_keeps (CoreKeeps.of_read (pure_readM _)) h
 
-theorem aImage_keeps (cs : CoreSpecs off) (pre : Bool) (ht hs : Nat) (rn : List (Key × Key)) (q : List Key)
+theorem aImage_keeps (hI : ∀ t s rn q f, CoreKeeps off (image t s rn q f))
+    (hP : ∀ t s rn q f, CoreKeeps off (preimage t s rn q f)) (pre : Bool) (ht hs : Nat) (rn : List (Key × Key)) (q : List Key)
     (fa : Bool) (h : Nat) : AKeeps off h (aImage pre ht hs rn q fa h) := by
   unfold aImage
   refine AKeeps.bind_read (nodeOwn_read ht) fun t => ?_
   refine AKeeps.bind_read (nodeSame_read hs) fun s => ?_
   cases pre
-  · exact wrapResult_keeps (cs.image t s rn q fa) h
-  · exact wrapResult_keeps (cs.preimage t s rn q fa) h
+  · exact wrapResult_keeps (hI t s rn q fa) h
+  · exact wrapResult_keeps (hP t s rn q fa) h
 
 /-- `Function.__invert__ / __and__ / __or__ / implies / equiv` -/
 theorem fApply_keeps (op : String) (hsp : ∀ u v, CoreKeeps off (apply op u v none))
@@ -603,14 +690,20 @@ theorem aCollectGarbage_keeps (hs : CoreKeeps off (collectGarbage none)) (h : Na
     AKeeps off h aCollectGarbage :=
   liftM_keeps hs h
 
-theorem aReorder_keeps (cs : CoreSpecs off) (o : Option (List (String × Int))) (h : Nat) :
-    AKeeps off h (aReorder o) := liftM_keeps (cs.reorder o) h
+/-- `reorder(order)`: in the states where the core `reorder` is specified (at least two variables
+for sifting; a complete order for a given one) -/
+theorem aReorder_keepsAt (a : AMgr) (o : Option (List (String × Int)))
+    (hs : CoreKeepsAt off a.m (reorder o)) (h : Nat) : AKeepsAt off a h (aReorder o) :=
+  liftM_keepsAt a hs h
 
-theorem aDeclare_keeps (cs : CoreSpecs off) (ns : List String) (h : Nat) : AKeeps off h (aDeclare ns) :=
-  liftM_keeps (cs.declare ns) h
+theorem aDeclare_keeps (ns : List String) (hs : CoreKeeps off (declare ns)) (h : Nat) :
+    AKeeps off h (aDeclare ns) :=
+  liftM_keeps hs h
 
-theorem aAddVar_keeps (cs : CoreSpecs off) (n : String) (l : Option Int) (h : Nat) :
-    AKeeps off h (aAddVar n l) := liftM_keeps (cs.addVar n l) h
+/-- `add_var(name, level)`: in the states where the level leaves no gap -/
+theorem aAddVar_keepsAt (a : AMgr) (n : String) (l : Option Int)
+    (hs : CoreKeepsAt off a.m (addVar n l)) (h : Nat) : AKeepsAt off a h (aAddVar n l) :=
+  liftM_keepsAt a hs h
 
 /-- an operation followed by a read -/
 theorem AKeeps.then_read {x : AM α} {f : α → AM β} {h : Nat} (hx : AKeeps off h x)
@@ -622,6 +715,29 @@ theorem AKeeps.then_read {x : AM α} {f : α → AM β} {h : Nat} (hx : AKeeps o
   | mk r0 a1 =>
     rw [hxa] at he
     have k := hx a hi hfr r0 a1 hxa
+    cases r0 with
+    | error e =>
+      simp only at he
+      cases he
+      exact k
+    | ok v =>
+      simp only at he
+      have h2 := hf v a1
+      rw [he] at h2
+      simp only at h2
+      subst h2
+      exact k
+
+/-- the same for one start state -/
+theorem AKeepsAt.then_read' {x : AM α} {f : α → AM β} {h : Nat} (a : AMgr) (hx : AKeepsAt off a h x)
+    (hf : ∀ v, ARead (f v)) : AKeepsAt off a h (x >>= f) := by
+  intro hi hfr r a' he
+  change AM.bind' x f a = (r, a') at he
+  unfold AM.bind' at he
+  cases hxa : x a with
+  | mk r0 a1 =>
+    rw [hxa] at he
+    have k := hx hi hfr r0 a1 hxa
     cases r0 with
     | error e =>
       simp only at he
@@ -657,13 +773,14 @@ theorem aLetArgs_read (d : ALetArg) : ARead (aLetArgs d) := by
   | names d => exact ARead.pure _
   | funs d => exact ARead.bind (nodesAny_read d) fun _ => ARead.pure _
 
-theorem aLet_keeps (cs : CoreSpecs off) (d : ALetArg) (hu : Nat) (h : Nat) : AKeeps off h (aLet d hu h) := by
+theorem aLet_keeps (hs : ∀ d u, CoreKeeps off (letOp d u)) (d : ALetArg) (hu : Nat) (h : Nat) :
+    AKeeps off h (aLet d hu h) := by
   unfold aLet
   refine AKeeps.bind_read (nodeIn_read hu) fun u => ?_
   split
   · exact AKeeps.of_read h (ARead.pure _)
   · refine AKeeps.bind_read (aLetArgs_read d) fun d' => ?_
-    exact (wrapResult_keeps (cs.letOp d' u) h).then_read fun _ => ARead.pure _
+    exact (wrapResult_keeps (hs d' u) h).then_read fun _ => ARead.pure _
 
 /-- `Function.low` / `Function.high` (no hypothesis) -/
 theorem fChild_keeps (high : Bool) (hs : Nat) (h : Nat) : AKeeps off h (fChild high hs h) := by
@@ -688,12 +805,12 @@ theorem fCopy_keeps (hs : Nat) (h : Nat) : AKeeps off h (fCopy hs h) := by
 the call must not enable reordering) -/
 theorem configure_keeps (r : Option Bool) (hr : off = true → r ≠ some true) :
     CoreKeeps off (configure r) := by
-  refine ⟨fun m ext hm hi hc r' m' he => ?_⟩
+  refine ⟨fun m ext hm r' m' he => ?_⟩
   have key : ∀ l, ModeOK off { m with lastLen := l } →
-      Inv { m with lastLen := l } ∧ RefExact { m with lastLen := l } ext ∧
-      HeldExt m.tbl ({ m with lastLen := l } : Mgr).tbl ext ∧ ModeOK off { m with lastLen := l } :=
-    fun l hl => ⟨⟨hi.wf, hi.pred, hi.freeGe, hi.free, hi.refOne, hi.refDom, hi.cache⟩,
-      ⟨hc.dom, hc.cnt, hc.extZero⟩, HeldExt.refl _ _, hl⟩
+      MInv off ext { m with lastLen := l } ∧ HeldExt m.tbl ({ m with lastLen := l } : Mgr).tbl ext :=
+    fun l hl => ⟨⟨⟨hm.inv.wf, hm.inv.pred, hm.inv.freeGe, hm.inv.free, hm.inv.refOne, hm.inv.refDom,
+        hm.inv.cache⟩, hm.order, ⟨hm.counts.dom, hm.counts.cnt, hm.counts.extZero⟩, hm.ctx, hm.sched,
+        hm.roots, hl⟩, HeldExt.refl _ _⟩
   unfold configure at he
   change M.bind' M.get _ m = _ at he
   unfold M.bind' M.get at he
@@ -702,17 +819,17 @@ theorem configure_keeps (r : Option Bool) (hr : off = true → r ≠ some true) 
   | none =>
     change (Except.ok m.lastLen.isSome, m) = _ at he
     cases he
-    exact ⟨hi, hc, HeldExt.refl _ _, hm⟩
+    exact ⟨hm, HeldExt.refl _ _⟩
   | some b =>
     cases b with
     | true =>
       change (Except.ok m.lastLen.isSome, { m with lastLen := some (max Gen.reorderStarts m.len) }) = _ at he
       cases he
-      exact key _ (fun ho => absurd rfl (hr ho))
+      exact key _ ⟨fun ho => absurd rfl (hr ho), hm.mode.2⟩
     | false =>
       change (Except.ok m.lastLen.isSome, { m with lastLen := none }) = _ at he
       cases he
-      exact key _ (fun _ => rfl)
+      exact key _ ⟨fun _ => rfl, hm.mode.2⟩
 
 theorem aConfigure_keeps (r : Option Bool) (hr : off = true → r ≠ some true) (h : Nat) :
     AKeeps off h (aConfigure r) :=
@@ -775,10 +892,13 @@ theorem aFindOrAdd_keepsAt (a : AMgr) (var : String) (hlow hhigh h : Nat)
               have hk := hfoa level lo hi' hl (by rw [hx2]) (by rw [hx3])
               exact wrapResult_keepsAt a3 hk h hi hfr r a' he
 
-/-- `BDD.copy(u, other)` / `copy_bdd(u, other)` into another manager: a guarantee about the
-*target* (the source is only read) -/
-theorem aCopyTo_keeps (cs : CoreSpecs off) (src : AMgr) (hu h : Nat) : AKeeps off h (aCopyTo src hu h) := by
-  intro a hi hfr r a' he
+/-- `BDD.copy(u, other)` into another manager: a guarantee about the *target* `a` (the source
+is only read); the core hypothesis is needed for the node that the `u in self` test of the source
+lets through -/
+theorem aCopyTo_keepsAt (a : AMgr) (src : AMgr) (hu h : Nat)
+    (hs : ∀ u, (nodeIn hu src).1 = .ok u → CoreKeepsAt off a.m (copyBdd src.m.tbl u)) :
+    AKeepsAt off a h (aCopyTo src hu h) := by
+  intro hi hfr r a' he
   unfold aCopyTo at he
   cases hx : nodeIn hu src with
   | mk r1 s1 =>
@@ -789,11 +909,13 @@ theorem aCopyTo_keeps (cs : CoreSpecs off) (src : AMgr) (hu h : Nat) : AKeeps of
       exact ⟨hi, fun _ _ => rfl, fun j u hj => ⟨hi.hmem j u hj, fun _ => rfl⟩⟩
     | ok u =>
       simp only at he
-      exact wrapResult_keeps (cs.copyBdd src.m.tbl u) h a hi hfr r a' he
+      exact wrapResult_keepsAt a (hs u (by rw [hx])) h hi hfr r a' he
 
-theorem aCopyBddTo_keeps (cs : CoreSpecs off) (src : AMgr) (hu h : Nat) :
-    AKeeps off h (aCopyBddTo src hu h) := by
-  intro a hi hfr r a' he
+/-- module-level `copy_bdd(u, other)` -/
+theorem aCopyBddTo_keepsAt (a : AMgr) (src : AMgr) (hu h : Nat)
+    (hs : ∀ u, (nodeOwn hu src).1 = .ok u → CoreKeepsAt off a.m (copyBdd src.m.tbl u)) :
+    AKeepsAt off a h (aCopyBddTo src hu h) := by
+  intro hi hfr r a' he
   unfold aCopyBddTo at he
   cases hx : nodeOwn hu src with
   | mk r1 s1 =>
@@ -804,17 +926,19 @@ theorem aCopyBddTo_keeps (cs : CoreSpecs off) (src : AMgr) (hu h : Nat) :
       exact ⟨hi, fun _ _ => rfl, fun j u hj => ⟨hi.hmem j u hj, fun _ => rfl⟩⟩
     | ok u =>
       simp only at he
-      exact wrapResult_keeps (cs.copyBdd src.m.tbl u) h a hi hfr r a' he
+      exact wrapResult_keepsAt a (hs u (by rw [hx])) h hi hfr r a' he
 
-theorem aCopyVars_keeps (cs : CoreSpecs off) (src : Tbl) (names : List String) (h : Nat) :
-    AKeeps off h (aCopyVars src names) := liftM_keeps (cs.copyVars src names) h
+theorem aCopyVars_keepsAt (a : AMgr) (src : Tbl) (names : List String)
+    (hs : CoreKeepsAt off a.m (copyVarsCore src names)) (h : Nat) :
+    AKeepsAt off a h (aCopyVars src names) := liftM_keepsAt a hs h
 
 /-! ### histories -/
 
 /-- one step of a history in which the handles in `P` are never dropped: any operation that
-creates at most the (fresh) handles `H`, or the drop of a live handle outside `P` -/
+creates at most the (fresh) handles `H` and has the guarantee `AKeepsLAt` in the current state
+(`AKeepsL off H x` gives it in every state), or the drop of a live handle outside `P` -/
 inductive AStep (off : Bool) (P : Nat → Prop) : AMgr → AMgr → Prop
-  | op {α : Type} (H : List Nat) (x : AM α) (hk : AKeepsL off H x) (a : AMgr)
+  | op {α : Type} (H : List Nat) (x : AM α) (a : AMgr) (hk : AKeepsLAt off a H x)
       (hf : ∀ h, h ∈ H → a.handles.contains h = false) (r : Except Err α) (a' : AMgr)
       (he : x a = (r, a')) : AStep off P a a'
   | drop (h : Nat) (hP : ¬ P h) (a a' : AMgr) (u : Int) (hl : a.handles[h]? = some u)
@@ -836,8 +960,8 @@ theorem autoref_live_den (P : Nat → Prop) {a a' : AMgr} (hi : AInv off a) (hr 
   | step _ hs ih =>
     obtain ⟨ib, hb⟩ := ih
     cases hs with
-    | op H x hk _ hf r _ he =>
-      obtain ⟨ic, hfr, hd⟩ := hk _ ib hf r _ he
+    | op H x _ hk hf r _ he =>
+      obtain ⟨ic, hfr, hd⟩ := hk ib hf r _ he
       refine ⟨ic, fun j hj u hu => ?_⟩
       obtain ⟨l1, _, d1⟩ := hb j hj u hu
       have hne : j ∉ H := by
